@@ -140,7 +140,7 @@ func GenHostile(prop string, seed uint64, thorough bool) *Scenario {
 	o.PingIntervalMs, o.PingTimeoutMs = g.pick(200, 500, 1000), g.pick(300, 1000)
 	o.UpgradeTimeoutMs = g.pick(300, 1000)
 	if g.p(0.3) {
-		o.MaxBuf = int64(g.pick(10, 100, 1000))
+		o.MaxBuf = int64(g.pick(200, 1000)) // large enough for a canary's batched payload (message + heartbeat)
 	}
 	if g.p(0.2) {
 		o.PMD = true
@@ -313,8 +313,8 @@ func oracleC09(f *sessionFam, w *World, res *Result) []Violation {
 			l.add("nothing-stuck-after-connection-gone", kind+"/"+role+"/"+siteFunc(where), fmt.Sprintf("task %s is still alive %v after every client connection was gone", a, f.grace))
 		}
 	}
-	if !anyHostile {
-		return l.out
+	if !anyHostile || !f.ended {
+		return l.out // the run was cut short (work budget, failure): the canaries never got to finish
 	}
 	// canaries: still open, and everything they were sent / sent arrived
 	for _, c := range f.sc.Clients {
